@@ -572,9 +572,9 @@ func (s *stepper) Begin(b replay.Behaviour, rng *rand.Rand) error {
 	s.meta = rng.Intn(2) == 0
 	s.logs = rng.Intn(3) == 0 && s.requireEOS
 	s.hdr = rng.Intn(3) == 0
-	s.level = []int{0, 1, 1, 3}[rng.Intn(4)]
+	s.level = []int{0, 1, 1, 2}[rng.Intn(4)]
 	s.prefix = []string{"", "", "/vgi"}[rng.Intn(3)]
-	lim := [][2]int64{{16384, 65536}, {65536, 16384}, {32768, 32768}, {1 << 20, 1 << 20}}[rng.Intn(4)]
+	lim := [][2]int64{{16384, 65536}, {65536, 16384}, {32768, 32768}, {24576, 24577}}[rng.Intn(4)]
 	s.maxEnc, s.maxDec = lim[0], lim[1]
 	s.ids = map[string]int{}
 	s.exchPosted = map[string]bool{}
@@ -592,16 +592,25 @@ func (s *stepper) End() {
 	svc.Take(s.sid)
 }
 
+// servers are stateless (all stream state travels in the tokens), so one real HttpServer per
+// configuration is shared by all behaviours of the process; the client is fresh every time.
+var servers = map[string]*vgirpc.HttpServer{}
+
 func (s *stepper) build(limit int) error {
-	srv := vgirpc.NewServer()
-	svc.Register(srv)
-	hs := vgirpc.NewHttpServer(srv)
-	hs.SetProducerBatchLimit(limit)
-	if err := hs.SetCompressionLevel(s.level); err != nil {
-		return err
-	}
-	if s.prefix != "" {
-		hs.SetPrefix(s.prefix)
+	key := fmt.Sprintf("%d|%d|%s", limit, s.level, s.prefix)
+	hs := servers[key]
+	if hs == nil {
+		srv := vgirpc.NewServer()
+		svc.Register(srv)
+		hs = vgirpc.NewHttpServer(srv)
+		hs.SetProducerBatchLimit(limit)
+		if err := hs.SetCompressionLevel(s.level); err != nil {
+			return err
+		}
+		if s.prefix != "" {
+			hs.SetPrefix(s.prefix)
+		}
+		servers[key] = hs
 	}
 	s.hs = hs
 	s.rt = &faultRT{s: s, h: hs}
